@@ -4,8 +4,8 @@ import CosetProofs.Ties.PanicSites
 namespace Coset.Props.C01
 
 /-! ### ties to the source text (regenerated on every run, compared in the kernel with the transcribed tree) -/
-/-- the syntactic panic sites of the non-test source are exactly those the model was transcribed from (a new `unwrap`, index, `remove` or subtraction breaks this). -/
-theorem tie_panic_sites : Coset.Gen.panicSites = Coset.Pinned.panicSites := Coset.Ties.panic_sites
+/-- the non-test source has no syntactic panic site beyond those of the tree the model was transcribed from (a new `unwrap`, index, `remove` or subtraction — or one more of a kind in a function — breaks this; a site that went away does not). -/
+theorem tie_panic_sites : Coset.Ties.sitesCovered Coset.Gen.panicSites Coset.Pinned.panicSites = true := Coset.Ties.panic_sites
 
 #print axioms tie_panic_sites
 
